@@ -69,11 +69,7 @@ class GenericValue(Snapshot):
                 old_value.value = value
                 return
 
-            if type(old_value) is not type(value) and not (
-                # subclasses of dict (OrderedDict, Counter, ...) are stored as dict
-                type(old_value) is dict
-                and isinstance(value, dict)
-            ):
+            if type(old_value) is not type(value):
                 raise UsageError(
                     "snapshot value should not change. Use Is(...) for dynamic snapshot parts."
                 )
